@@ -1,5 +1,6 @@
 // d_query.cpp — C17: query composition / dissection events for TLC (Trace_Query).
 #include "vh.h"
+#include <array>
 struct QItem { Text k; bool hasv; Text v; };
 typedef std::vector<QItem> QList;
 static std::string jq(const QList&l){ std::vector<std::string> v; for(auto&it:l) v.push_back("["+jtext(it.k)+","+(it.hasv? jopt_some(it.v):"[]")+"]"); return jlist(v); }
@@ -65,5 +66,21 @@ VH_DRIVER(query){
   { size_t n=200u*1000u*1000u; for(int variant=0;variant<2;++variant){ std::string big(n, variant? 'a':'\r'); UriQueryListA item; item.key=big.c_str(); item.value=big.c_str(); item.next=nullptr; int req=-7; g.set_case(J().str("driver","query/giant").num("variant",variant).done());
       for(int nb=0;nb<2;++nb){ int rc=uriComposeQueryCharsRequiredExA(&item,&req,URI_TRUE,nb);
         g.event(J().str("e","ComposeReqGiant").num("km",200).num("vm",200).boo("nb",nb).num("rc",rc).boo("nonneg",req>=0).num("reqm",req/1000000).done()); } } }
+  // the INT_MAX boundary itself: lists whose exact worst-case size is INT_MAX-3 .. INT_MAX+3.  All keys point into ONE shared buffer of 2^20
+  // characters (the measuring call only walks them), empty-key filler items (one '&' each) tune the total to the character; the last item comes
+  // with and without a value.  Lengths are logged, TLC adds them up in base 2^20 (its integers are 32 bit).
+  { const long M=1<<20; std::string buf((size_t)M,'a'); const char*end=buf.c_str()+M; g.set_case(J().str("driver","query/boundary").done());
+    for(int nb=0;nb<2;++nb) for(int lastval=0;lastval<2;++lastval) for(long d=-3;d<=3;++d){ const long long W=nb?6:3, target=2147483647LL+d;
+      long long nfull=(target-8*W*1000)/(W*M+1); std::vector<std::array<long,3>> items; long long total=0;
+      for(long long i=0;i<nfull;++i){ items.push_back({M,0,0}); total+= (i?1:0)+W*M; }
+      // what the last item must contribute: '&' + W*klen (+ '=' + W*vlen); fillers absorb the remainder modulo W
+      long long rest=target-total-1-(lastval?1:0); if(rest<0) continue; long long fill=rest%W; rest-=fill; long long chars=rest/W; if(chars>2*M-2||chars<1) continue;
+      for(long long i=0;i<fill;++i) items.push_back({0,0,0});
+      long klen= lastval? (long)(chars/2) : (long)chars, vlen= lastval? (long)(chars-chars/2) : 0; if(klen>M||vlen>M) continue; items.push_back({klen,lastval,vlen});
+      std::vector<UriQueryListA> nodes(items.size()); for(size_t i=0;i<items.size();++i){ nodes[i].key=end-items[i][0]; nodes[i].value= items[i][1]? end-items[i][2] : nullptr; nodes[i].next= i+1<items.size()? &nodes[i+1] : nullptr; }
+      int req=-7; int rc=uriComposeQueryCharsRequiredExA(nodes.data(),&req,URI_TRUE,nb?URI_TRUE:URI_FALSE);
+      std::vector<std::string> ji; for(auto&it:items) ji.push_back("["+std::to_string(it[0])+","+std::to_string(it[1])+","+std::to_string(it[2])+"]");
+      long long r= req<0? 0 : req;
+      g.event(J().str("e","ComposeReqBoundary").boo("nb",nb).num("d",d).raw("items",jlist(ji)).num("rc",rc).boo("nonneg",req>=0).num("reqhi",r>>20).num("reqlo",r&(M-1)).done()); g.count("boundary"+std::to_string(nb*100+lastval*10+d),true); } }
   return 0;
 }
